@@ -283,6 +283,47 @@ func genC05(tier string, seed int64) []*Prog {
 		}
 	}
 	rng := rand.New(rand.NewSource(seed))
+	// constant leaves: every 2-operator tree with one int leaf replaced by a literal (code the optimizer fuses with
+	// its neighbours: the grouping must survive the fusion)
+	for _, typ := range []byte{'i', 'b'} {
+		var withConst []*expr
+		for _, t := range enumTrees(2, typ) {
+			var leaves int
+			t.nodes(func(x *expr) {
+				if x.op == "" && x.typ == 'i' {
+					leaves++
+				}
+			})
+			for li := 0; li < leaves; li++ {
+				c := t.clone()
+				k := 0
+				c.nodes(func(x *expr) {
+					if x.op == "" && x.typ == 'i' {
+						if k == li {
+							x.konst = []string{"1", "3", "2"}[li%3]
+						}
+						k++
+					}
+				})
+				// an untyped constant as the LEFT operand of a non-constant shift takes its type from the context of the
+				// whole shift expression (a corner of the Go spec outside the subset): not generated
+				bad := false
+				c.nodes(func(x *expr) {
+					if (x.op == "<<" || x.op == ">>") && x.l.op == "" && x.l.konst != "" {
+						bad = true
+					}
+				})
+				if !bad {
+					withConst = append(withConst, c)
+				}
+			}
+		}
+		n := 500
+		if tier == "thorough" {
+			n = 0
+		}
+		addTrees(withConst, false, n, rng)
+	}
 	for _, typ := range []byte{'i', 'b'} {
 		addTrees(enumTrees(1, typ), true, 0, rng)
 		addTrees(enumTrees(2, typ), tier == "thorough", 0, rng)
@@ -308,7 +349,7 @@ func checkC05(tier string, seed int64) int {
 	c.Cov("both_sides_fail_paths", st.bothPanic)
 	c.Cov("paths_compared", st.compared)
 	c.Cov("logic_nest_programs", 4*len(logicNests()))
-	c.Assumption("operands are int (int32) and bool parameters; constants occur only in the logic-nest family (&&/|| nested in each other's operands over comparisons of sums/differences of locals and constants)")
+	c.Assumption("operands are int (int32) and bool parameters; constants occur in the const-leaf family (every 2-operator tree with one int leaf replaced by a literal; quick: 500 sampled per result type) and in the logic-nest family (&&/|| nested in each other's operands over comparisons of sums/differences of locals and constants)")
 	c.Assumption("reference semantics: go/types + go/ssa of the same text under GOARCH=386 sizes, interpreted by the same engine")
 	return c.Finish(false)
 }
